@@ -66,10 +66,11 @@ Definition seen (c : case) (t : bytes) : bytes := if c_pipe c then strip_ws t el
 
 (* ---- model vs implementation ---- *)
 Definition model_fixed : bool := true.
+Definition model_pre : list bytes := universe_names.     (* fixes/C03-3: bind refuses the universe's names *)
 
 Definition mismatch (c : case) : bool :=
   if c_cmp c then
-    match run model_fixed (Some std_tr) (c_self c) (c_ops c) with
+    match run model_fixed model_pre (Some std_tr) (c_self c) (c_ops c) with
     | Ok (tr, texts, snaps) =>
         negb (list_eqb (option_eqb bytes_eqb) (map (fun t => Some (seen c t)) texts) (map oo_text (c_obs c)))
         || (negb (c_pipe c) && negb (list_eqb amap_eqb (map sort_by_key snaps) (map oo_snap (c_obs c))))
@@ -106,6 +107,9 @@ Definition holds (c : case) : bool :=
   (* each local name is a usable identifier (checked here on ASCII names; the harness checks every
      name with go/token as well) *)
   && forallb (fun i => if c_cmp c then valid_name_b (i_name i) else negb (is_nil (i_name i))) (c_final c)
+  (* no_predeclared: ... that does not shadow a predeclared identifier (string, error, len, nil ...) which
+     the same file may use: the universe scope of the toolchain, and at least the Go spec's list *)
+  && forallb (fun i => not_predeclared_b universe_names (i_name i) && not_predeclared_b spec_predeclared (i_name i)) (c_final c)
   (* stability: the table only grows, bindings never change, and ends as the final table *)
   && chain_b (map oo_snap (c_obs c) ++ [tbl])
   (* a name std reserves is bound to its std package only *)
